@@ -618,6 +618,16 @@ def glue_threading() -> None:
         _verif_hook("unwrap_thread:got_frame", thread, inner_frame)
         if inner_frame is None or not thread.is_alive() or not was_alive:
             return []
+        # The object that stands for a thread which wasn't started through
+        # the threading module (what current_thread() returns inside it)
+        # claims to be alive forever. Once such a thread has finished and
+        # a new thread got its identifier, the threading module knows the
+        # identifier as that of the new thread.
+        active = getattr(threading, "_active", None)
+        if isinstance(active, dict):
+            registered = active.get(thread.ident)
+            if registered is not None and registered is not thread:
+                return []
         return StackSlice(inner=inner_frame)
 
     # Don't show thread bootstrap gunk at the base of thread stacks
